@@ -28,6 +28,9 @@ impl<T: Send + Sync + 'static> CobwebCommandQueue<T>
         std::mem::replace(&mut self.commands, replacement)
     }
 
+    #[cfg(feature = "verif_hooks")]
+    pub(crate) fn verif_len(&self) -> usize { self.commands.len() }
+
     /// Adds a cobweb command to the end of the queue.
     pub(crate) fn push(&mut self, command: T)
     {
